@@ -31,6 +31,7 @@ RULE += ' Round 8: checksum responses that are the bare digest, close-delimited 
 RULE += ' Round 9: a checksum URL that fails on its first request only (judged on what the server publishes after the last transfer); checksums served as text/html; HEAD answers with Last-Modified dates (checksum older than data).'
 RULE += ' Round 10: targets given as pathlib.Path; bodies equal to the published file up to LF -> CR LF.'
 RULE += ' Round 12: 429 / 503 refusals with Retry-After; a constant version ETag on HEAD and GET.'
+RULE += ' Round 13: a file name containing colons.'
 EXHAUSTIVE = {'quick': True, 'thorough': True}
 EXHAUSTIVE_SCOPE = {'quick': 'all 351 scripted fault sequences of the quantifier',
                     'thorough': 'the same 351 plus sampled extended fault kinds'}
